@@ -130,7 +130,7 @@ def _setrec(xs):
 
 
 def gen_query(rnd, st, v=None):
-    v = v if v is not None else rnd.choice([10, 12, 16, 17, 21, 22, 24, 25, 27, 28, 29,
+    v = v if v is not None else rnd.choice([10, 11, 12, 16, 17, 21, 22, 24, 25, 27, 28, 29,
                                             31, 32, 33, 34, 35, 36, 38, 39, 39, 39])
     provs = sorted(st['rp'])
     classes = [k for k in CLASSES if k != 'CUSTOM_RC1' or 'CUSTOM_RC1' in st['classes']]
@@ -509,7 +509,7 @@ def worker(job):
         s = scenarios.S(rec, rnd)
         if kind_ == 'family':
             build_family_state(s, seed)
-            fam = family_queries() if seed < 36 else nested_family_queries()
+            fam = family_queries() if seed < 36 else nested_family_queries() if seed < 60 else oldform_queries()
         else:
             build_state(s, rnd)
             fam = None
@@ -669,7 +669,43 @@ def nested_family_queries():
     return out
 
 
+OLDFORM = [60, 61]
+
+
+def build_oldform_state(s, idx):
+    """For the list form of allocation requests (below 1.12): a compute node that supplies the
+    classes with the lowest and the highest identifier while a sharing provider supplies one in
+    between, so that the node's resources are not adjacent in identifier order."""
+    s.do(op='rc_post', v=39, name='CUSTOM_RC1')
+    s.mk('p1')
+    s.mk('p3')
+    s.mk('p4')
+    s.invs('p1', VCPU=8, MEMORY_MB=16, CUSTOM_RC1=4)
+    s.invs('p3', VCPU=8, CUSTOM_RC1=2)
+    if idx == 0:
+        s.invs('p4', DISK_GB=100)
+    else:
+        s.invs('p4', DISK_GB=100, MEMORY_MB=64)
+    s.do(op='rp_traits_put', v=39, u='p4', gen=s.gen('p4'), traits=[SHARING])
+    for u in ('p1', 'p3', 'p4'):
+        s.do(op='agg_put', v=39, u=u, gen=s.gen(u), aggs=['agg1'])
+
+
+def oldform_queries():
+    out = []
+    for v in (10, 11, 12, 16, 27):
+        for res in ({'VCPU': 1, 'DISK_GB': 10, 'CUSTOM_RC1': 1}, {'VCPU': 1, 'MEMORY_MB': 4, 'DISK_GB': 5, 'CUSTOM_RC1': 1},
+                    {'VCPU': 2, 'DISK_GB': 10}, {'MEMORY_MB': 4, 'CUSTOM_RC1': 2, 'VCPU': 1}):
+            out.append({'op': 'ac_list', 'v': v, 'policy': '', 'root_required': {}, 'root_forbidden': {},
+                        'same_subtree': [], 'limit': -1,
+                        'groups': [{'suffix': '', 'res': dict(res), 'required': [], 'forbidden': {}, 'member_of': [],
+                                    'forbidden_aggs': {}, 'in_tree': ''}]})
+    return out
+
+
 def build_family_state(s, idx):
+    if idx >= 60:
+        return build_oldform_state(s, idx - 60)
     if idx >= 36:
         return build_nested_family_state(s, idx - 36)
     subsets = [[], ['agg1'], ['agg2'], ['agg1', 'agg2']]
